@@ -118,7 +118,23 @@ func cmdVerify(args []string) {
 	} else {
 		fmt.Println("queries in", work)
 	}
+	// vacuity: each return path's assumptions checked for satisfiability (goal "false" must NOT be provable)
+	var feas []solveJob
+	for _, fr := range results {
+		if fr.VC == nil {
+			continue
+		}
+		for i, l := range fr.VC.feasLines {
+			o := &Obligation{Name: fmt.Sprintf("%s#canary:path%d", fr.Key, i+1), Kind: "canary", Fn: fr.Key, lines: l, Goal: tFalse, Modules: map[string]bool{}}
+			for m := range fr.VC.modules {
+				o.Modules[m] = true
+			}
+			fr.VC.canaries = append(fr.VC.canaries, o)
+			feas = append(feas, solveJob{fr.VC, o, fr.VC.heap0All()})
+		}
+	}
 	dischargeAll(jobs, work, 3, 10, false, 16)
+	dischargeAll(feas, work+"/canary", 2, 2, false, 16)
 	bad := 0
 	for _, fr := range results {
 		n, p := 0, 0
@@ -136,6 +152,19 @@ func cmdVerify(args []string) {
 			}
 			return 0
 		}())
+		if fr.VC != nil {
+			dead := 0
+			for _, o := range fr.VC.canaries {
+				if o.Status == "proved" {
+					dead++
+				}
+			}
+			fmt.Printf(" deadpaths %d/%d", dead, len(fr.VC.canaries))
+			if dead == len(fr.VC.canaries) && dead > 0 {
+				fmt.Printf("  VACUOUS: every return path is infeasible")
+				bad++
+			}
+		}
 		if len(fr.Unbound) > 0 {
 			fmt.Printf("  UNBOUND: %s", strings.Join(fr.Unbound, "; "))
 			bad++
